@@ -99,6 +99,40 @@ fn vp_native_streaming_equals_whole_body() {
     println!("VP-NATIVE streaming_equals_whole cases={}", cases);
 }
 
+/// C18, segmentation independence through the response path: the text of a body does not depend on how the body reaches the
+/// decoder.  The same body is framed as one chunk and as chunks of 1, 2, 3 and 5 bytes (each chunk is one read of the decoder's
+/// source); bodies start with a byte order mark (of the declared charset or of another one) or not.  text(), text_with() and the
+/// streaming reader must give the same string for every chunking.
+#[test]
+fn vp_native_text_independent_of_body_segmentation() { crate::verif_native_watchdog::watched(vp_native_text_independent_of_body_segmentation_body); }
+fn vp_native_text_independent_of_body_segmentation_body() {
+    use crate::parsing::response::parse_response;
+    use crate::request::PreparedRequest;
+    use crate::streams::BaseStream;
+    let bodies: [&[u8]; 8] = [b"\xEF\xBB\xBF\xC3\xA9t\xC3\xA9", b"\xFF\xFEA\x00\xE9\x00", b"\xFE\xFF\x00A\x00\xE9", b"\xEF\xBB", b"\xFF", b"plain", b"caf\xE9 \x82\xA0", b"\xEF\xBB\xBFplain after a BOM"];
+    let labels = ["utf-8", "windows-1252", "shift_jis", "utf-16le"];
+    let mut cases = 0u64;
+    for body in bodies { for label in labels {
+        let frame = |k: usize| -> Vec<u8> {
+            let mut w = format!("HTTP/1.1 200 OK\r\nContent-Type: text/plain; charset={}\r\nTransfer-Encoding: chunked\r\n\r\n", label).into_bytes();
+            for c in body.chunks(k.max(1)) { w.extend_from_slice(format!("{:x}\r\n", c.len()).as_bytes()); w.extend_from_slice(c); w.extend_from_slice(b"\r\n"); }
+            w.extend_from_slice(b"0\r\n\r\n"); w };
+        let req = PreparedRequest::new(http::Method::GET, "http://a.test/");
+        let read_all = |k: usize| -> (Result<String, String>, Result<String, String>, Result<String, String>) {
+            let open = || parse_response(BaseStream::mock(frame(k)), &req, req.url()).unwrap();
+            let a = open().text().map_err(|e| e.to_string());
+            let b = open().text_with(charsets::UTF_8).map_err(|e| e.to_string());
+            let mut t = String::new(); let c = open().text_reader().read_to_string(&mut t).map(|_| t).map_err(|e| e.to_string());
+            (a, b, c) };
+        let whole = read_all(body.len().max(1));
+        for k in [1usize, 2, 3, 5] {
+            let got = read_all(k); cases += 1;
+            assert_eq!(got, whole, "body {:?} declared as {}: text() / text_with(UTF-8) / text_reader() differ between one chunk and chunks of {} bytes", body, label, k);
+        }
+    } }
+    println!("VP-NATIVE text_independent_of_body_segmentation cases={}", cases);
+}
+
 /// C18 totality on bodies that END inside a multi-byte sequence (truncated tail): must decode to a replacement character, never fail
 #[test]
 fn vp_native_text_total_on_truncated_tail() { crate::verif_native_watchdog::watched(vp_native_text_total_on_truncated_tail_body); }
